@@ -32,6 +32,8 @@ pub enum Mode {
 
 pub struct Pair {
     pub mode: Mode,
+    /// sets of 30-250 entries per side (several levels of range splitting under every configuration)
+    pub large: bool,
 }
 
 thread_local! {
@@ -103,6 +105,7 @@ impl Scenario for Pair {
 
     fn name(&self) -> String {
         match self.mode {
+            Mode::Converge if self.large => "pair-large".into(),
             Mode::Converge => "pair".into(),
             Mode::Differential => "pair-diff".into(),
         }
@@ -114,10 +117,40 @@ impl Scenario for Pair {
         let max = tier.pick(12, 24);
         // shapes: both random / one empty / identical / one superset
         let shape = rng.below(10);
-        let na = rng.urange(0, max);
-        let nb = rng.urange(0, max);
-        let mut a_items: Vec<Ent> = (0..na).map(|_| gen_ent(rng, &g)).collect();
-        let mut b_items: Vec<Ent> = (0..nb).map(|_| gen_ent(rng, &g)).collect();
+        let (na, nb) = if self.large {
+            g.authors = rng.range(1, 4) as u8;
+            g.max_key_len = rng.urange(3, 5);
+            g.ts_values = rng.range(4, 40);
+            g.marker_pct = *rng.pick(&[2, 5, 10]);
+            (rng.urange(30, 250), rng.urange(if shape == 5 { 0 } else { 30 }, if shape == 5 { 3 } else { 250 }))
+        } else {
+            (rng.urange(0, max), rng.urange(0, max))
+        };
+        // large sets: keys of one fixed length, so that entries do not prune each other (an entry
+        // at a short key removes everything older below it); a few short keys at the oldest
+        // timestamp keep the prefix paths in play without emptying the set
+        let fixed_len = g.max_key_len;
+        let large = self.large;
+        // small sets: half of the runs draw most keys with one length too, otherwise the sets
+        // that survive pruning rarely exceed max_set_size and the session never splits a range
+        let flat = !large && rng.chance(1, 2);
+        let mut one = |rng: &mut Rng| {
+            let mut e = gen_ent(rng, &g);
+            if flat && rng.chance(4, 5) {
+                e.k = (0..fixed_len.min(3)).map(|_| *rng.pick(&crate::world::ALPHABET)).collect();
+            }
+            if large {
+                if rng.chance(1, 50) {
+                    e.ts = 1;
+                } else {
+                    e.k = (0..fixed_len).map(|_| *rng.pick(&crate::world::ALPHABET)).collect();
+                    e.ts = e.ts.max(2);
+                }
+            }
+            e
+        };
+        let mut a_items: Vec<Ent> = (0..na).map(|_| one(rng)).collect();
+        let mut b_items: Vec<Ent> = (0..nb).map(|_| one(rng)).collect();
         match shape {
             0 => a_items.clear(),
             1 => b_items.clear(),
@@ -163,12 +196,14 @@ impl Scenario for Pair {
                 probes.push(Probe::RemovePrefix { prefix: gen_id(rng, &a_items), max_ts: rng.range(0, g.ts_values) });
             }
         }
+        let cfg_default = rng.chance(1, 3);
         PairPlan {
             seed: rng.next_u64(),
             backend_a: pick_backend(rng),
             backend_b: pick_backend(rng),
-            max_set_size: rng.urange(1, 8),
-            split_factor: rng.urange(2, 8),
+            // a third of the runs use the shipped configuration (max_set_size 1, split_factor 2)
+            max_set_size: if cfg_default { 1 } else { rng.urange(1, 8) },
+            split_factor: if cfg_default { 2 } else { rng.urange(2, 8) },
             a_items,
             b_items,
             initiator_is_a: rng.chance(1, 2),
@@ -257,6 +292,9 @@ impl Scenario for Pair {
     }
 
     fn rule(&self) -> String {
+        if self.large {
+            return "A run fills two replicas with 30-250 entries each (1-4 authors, keys of one fixed length of 3-5 bytes from the biased alphabet so that entries do not prune each other, plus a few shorter keys at the oldest timestamp; 4-40 timestamps, few deletion markers; shapes: random, one nearly empty, identical, superset, half shared), draws split_factor 2-8, max_set_size 1-8, the initiator and the backends, then runs one complete session and an immediately following one: several levels of range splitting under every configuration. Non-trivial: as for the small batch.".into();
+        }
         "A run fills two replicas (0-24 entries each from the biased alphabet; shapes: random, one empty, identical, superset, half shared) through the remote-insert path, draws split_factor 2-8, max_set_size 1-8, the initiator, backends, and age-commit placements inside message processing, then runs one complete session and an immediately following one. Non-trivial: an age-commit fired inside an operation, or a rare branch (wrap-around split, recursion, pruning during the session) was hit.".into()
     }
 }
@@ -438,8 +476,8 @@ async fn session(init: &mut Side, acc: &mut Side, bound: usize, ages: &[(usize, 
         }
         let bytes = bytes_of(&msg);
         if bytes.len() > 1 << 20 {
-            // at most 48 entries of ~250 bytes are in play: a megabyte message means the exchange is exploding
-            return Err(Violation::new("terminate/blowup", format!("message {n} of the session is {} bytes for replicas holding a few dozen entries", bytes.len())));
+            // at most 500 entries of ~250 bytes are in play (125 KB if all of them travel at once): a megabyte message means the exchange is exploding
+            return Err(Violation::new("terminate/blowup", format!("message {n} of the session is {} bytes, several times everything both replicas hold", bytes.len())));
         }
         let hop: ProtocolMessage = postcard::from_bytes(&bytes).map_err(|e| harness(format!("hop decode: {e}")))?;
         transcript.push(bytes);
@@ -524,6 +562,12 @@ impl Pair {
             let ages: &[(usize, u32)] = if *is_map { &[] } else { &plan.ages };
             let s1 = session(init, acc, bound, ages, cx, &mut first_check).await?;
             let s2 = session(init, acc, 4, &[], cx, &mut first_check).await?;
+            if s1.transcript.len() >= 6 {
+                cx.probe("session_of_6_or_more_messages");
+            }
+            if s1.transcript.len() >= 10 {
+                cx.probe("session_of_10_or_more_messages");
+            }
             if s1.transcript.len() > 3 {
                 cx.probe("recursed");
             }
